@@ -473,22 +473,24 @@ type c52DirState struct {
 	ovh   int    // per-record overhead as claimed by the sending conn
 
 	// wire side (sender's harness conn)
-	pend        []byte // incomplete record at the tail of what the sender wrote so far
-	nrec        int
-	recPlain    []int
-	faults      map[int]*c52Fault
-	swapHeld    []byte
-	held        []byte // bytes kept back for coalescing
-	capturing   bool
-	captured    []byte
-	cut         bool // a trunc fault fired: nothing is forwarded any more, reader gets EOF after the rest
-	fwd         int  // bytes forwarded into simnet
-	rcount      int  // bytes the receiving ALTS conn has read from simnet
-	poked       bool
-	curHold     int // hold-back of the write in progress
-	handoffRest []byte
-	nfaults     int
-	multiRec    bool
+	pend                             []byte // incomplete record at the tail of what the sender wrote so far
+	nrec                             int
+	recPlain                         []int
+	faults                           map[int]*c52Fault
+	swapHeld                         []byte
+	held                             []byte // bytes kept back for coalescing
+	capturing                        bool
+	captured                         []byte
+	cut                              bool // a trunc fault fired: nothing is forwarded any more, reader gets EOF after the rest
+	fwd                              int  // bytes forwarded into simnet
+	rcount                           int  // bytes the receiving ALTS conn has read from simnet
+	poked                            bool
+	curHold                          int // hold-back of the write in progress
+	handoffRest                      []byte
+	emptyWrites                      int
+	seenPartial, seenGrown, seenIdle bool
+	nfaults                          int
+	multiRec                         bool
 
 	// ideal receiver: what an intact, in-order, authenticated stream allows
 	expect      int
@@ -562,6 +564,19 @@ func (x *c52End) Close() error                       { return x.inner.Close() }
 func (x *c52End) Write(p []byte) (int, error) {
 	d := x.out
 	e := d.w.e
+	if len(p) == 0 {
+		// a conn that keeps issuing empty writes never blocks and never
+		// advances: turn the livelock into a failed write
+		d.emptyWrites++
+		if d.emptyWrites > 64 {
+			if d.emptyWrites == 65 {
+				e.Violate("write_livelock", "%s: the conn issued %d empty writes to the network in a row", d.name, d.emptyWrites)
+			}
+			return 0, io.ErrShortWrite
+		}
+		return 0, nil
+	}
+	d.emptyWrites = 0
 	buf := p
 	if len(d.pend) > 0 {
 		buf = append(d.pend, p...)
@@ -1140,12 +1155,12 @@ func (w *c52World) reader(d *c52DirState, ac *conn) {
 			}
 			d.got = end
 			if ac.protectedHandle == nil {
-				e.Probe("reader_released_idle_buffer")
+				d.seenIdle = true
 			} else if cap(*ac.protectedHandle) > altsReadBufferInitialSize {
-				e.Probe("reader_buffer_grown")
+				d.seenGrown = true
 			}
 			if len(ac.buf) > 0 {
-				e.Probe("partial_record_read")
+				d.seenPartial = true
 			}
 		}
 		if h != nil {
@@ -1191,7 +1206,22 @@ func (w *c52World) quiescence(d *c52DirState) {
 	e := w.e
 	e.Logf("%s quiescence: written=%d records=%d deliverable=%d got=%d errs=%d faults=%d errItems=%d desync=%v cut=%v", d.name, d.written, d.nrec, d.deliverable, d.got, d.errs, d.nfaults, d.errItems, d.desync, d.cut)
 	if d.multiRec {
-		e.Probe("records_coalesced_in_one_segment_write")
+		e.Probe("several_records_in_one_network_write")
+	}
+	if d.seenIdle {
+		e.Probe("reader_released_idle_buffer")
+	}
+	if d.seenGrown {
+		e.Probe("reader_buffer_grown")
+	}
+	if d.seenPartial {
+		e.Probe("record_read_in_pieces")
+	}
+	if d.sc.CtrKind == "rekey" && d.floorHi != nil && d.nrec > d.sc.CtrRem+1 {
+		e.Probe("rekey_boundary_crossed")
+	}
+	if d.sc.CtrKind == "overflow" && d.floorHi != nil && d.nrec == d.sc.CtrRem+1 {
+		e.Probe("sealed_with_last_counter_value")
 	}
 	clean := d.nfaults == 0 && d.writerErr == nil
 	if clean {
